@@ -8,7 +8,7 @@
    on the abstract protocol in coq/RaftAbs by the raftabs group.
 
    The abstract-protocol theorems (coq/RaftAbs) are stated at the end of this file. *)
-From ZV Require Import Raft.Consts Raft.Model Raft.Proofs Raft.ProofsLog Raft.ProofsStore.
+From ZV Require Import Raft.Consts Raft.Model Raft.Proofs Raft.ProofsLog Raft.ProofsStore Raft.Core Raft.ProofsCore.
 From Coq Require Import List NArith.
 Import ListNotations.
 Open Scope N_scope.
@@ -128,6 +128,24 @@ Theorem C02_maybe_commit_current_term_only : forall l mi t b l', l_maybe_commit 
   l_applied l' = l_applied l /\ l_u l' = l_u l.
 Proof. exact maybe_commit_current_term_only. Qed.
 Print Assumptions C02_maybe_commit_current_term_only.
+
+(* (9b) the same two facts on the transcription of raft.maybeCommit in coq/Raft/Core.v (compared with the Go
+        handlers case by case on every run): the leader's commit index moves only to an index reached by the
+        Match of a majority of the VOTERS (learners' progress is not counted) whose entry has the current term *)
+Theorem C02_core_maybe_commit_quorum : forall r r', maybe_commit r = Ok (true, r') ->
+  exists mci, committed r' = mci /\ committed r < mci /\
+    quorum (nlen (r_prs r)) <= nlen (filter (fun p => mci <=? p_match p) (r_prs r)) /\
+    (term_of (l_term (r_log r) mci) = Ok (r_term r) \/ (term_of (l_term (r_log r) mci) = Err ErrCompacted /\ r_term r = 0)).
+Proof. exact core_maybe_commit_quorum. Qed.
+Print Assumptions C02_core_maybe_commit_quorum.
+
+(* (9c) sendHeartbeat: the commit index a heartbeat carries is at most the destination's Match (and the
+        leader's commit index) — a follower is never told to commit an index it has not been matched on *)
+Theorem C02_heartbeat_commit_le_match : forall r to r', send_heartbeat r to = Ok r' ->
+  exists pr x, get_progress r to = Some pr /\ r_msgs r' = r_msgs r ++ [x] /\ m_type x = msg_heartbeat /\
+               m_to x = to /\ m_commit x <= p_match pr /\ m_commit x <= committed r /\ m_ents x = [].
+Proof. exact send_heartbeat_commit. Qed.
+Print Assumptions C02_heartbeat_commit_le_match.
 
 (* (10) raftLog.restore (snapshot from the leader): commit index = snapshot index, nothing unstable but the
         snapshot, first index right after it, and the term at the snapshot index is the snapshot's *)
